@@ -265,9 +265,12 @@ def grep_forbidden():
 def build_go():
     os.makedirs(BIN, exist_ok=True)
     errs = []
+    # VERIF_COVER=1 (with GOCOVERDIR set) builds instrumented binaries: harness/coverage_gaps.py lists the blocks of the anchored
+    # files that no check input reaches (generator gaps). Not used by the registered commands.
+    cover = ["-cover", "-coverpkg=github.com/ludo-technologies/pyscn/..."] if os.environ.get("VERIF_COVER") else []
     for pkg, exe, tags in (("./cmd/pyscn-verif", "pyscn-verif", ["-tags", "verif"]), ("./cmd/pyscn", "pyscn", [])):
         try:
-            rc, out, err = run(["go", "build"] + tags + ["-o", os.path.join(BIN, exe), pkg], cwd=REPO, env=GOENV, timeout=900)
+            rc, out, err = run(["go", "build"] + cover + tags + ["-o", os.path.join(BIN, exe), pkg], cwd=REPO, env=GOENV, timeout=900)
         except subprocess.TimeoutExpired:
             rc, err = 1, "timeout"
         if rc != 0:
